@@ -5,7 +5,7 @@ from types import SimpleNamespace
 
 from .. import dag, literature as lit
 from ..arr import Arr
-from ..pe import PE, Obj, PERaise
+from ..pe import PE, Obj, PERaise, decide_on_values
 from ..series import valuation_at_least
 from ..src import load
 
@@ -183,7 +183,7 @@ def run(chk):
                 pe.overrides["eko.matchings.Atlas.path"] = lambda pe_, args, kwargs: [seg]
                 pe.overrides["eko.matchings.is_downward_path"] = lambda pe_, args, kwargs: False
                 pe.overrides["eko.matchings.lepton_number"] = lambda pe_, args, kwargs, nli=nli, nlf=nlf: nli if dag.tonode(args[0]) is dag.sym("mu_from") else nlf
-                pe.assume = lambda text, env: True if text == "not np.isclose(seg.origin, seg.target)" else None
+                pe.assume = lambda text, env, pe=pe: decide_on_values(pe, text, env) if "isclose" in text else None  # distinct symbolic scales are not close
                 inst = f"order=({qcd},{qed}),leptons {nli}->{nlf}"
                 try:
                     pe.apply(pe.getattr(self_, "a"), [dag.sym("mu_to"), 4], {})
